@@ -45,6 +45,23 @@ def deltas {Loc : Type} (ms : List ((Loc → Q) × Loc × Q)) : List Q := deltas
 def interpolate {Loc : Type} (S : List (Loc → Q)) (locs : List Loc) (x : Loc) (vs : List Q) : Q :=
   dot S x (deltas (S.zip (locs.zip vs)))
 
+/-- `VariationModel.getDeltas(masterValues, round=round)`: every delta is rounded AFTER the contributions of the already
+    ROUNDED earlier deltas have been subtracted (`delta -= out[j] * weight ... out.append(round(delta))`); `rnd` is the rounding
+    function followed by the embedding of the integers (`fun x => (otRound x : Q)` for varLib's stores) -/
+def deltasWithGo {Loc : Type} (rnd : Q → Q) (prevS : List (Loc → Q)) (prevD : List Q) : List ((Loc → Q) × Loc × Q) → List Q
+  | [] => prevD
+  | (f, l, v) :: rest => deltasWithGo rnd (prevS ++ [f]) (prevD ++ [rnd (v - dot prevS l prevD)]) rest
+
+def deltasWith {Loc : Type} (rnd : Q → Q) (ms : List ((Loc → Q) × Loc × Q)) : List Q := deltasWithGo rnd [] [] ms
+
+/-- `interpolateFromDeltas(loc, getDeltas(values, round=round))` -/
+def interpolateWith {Loc : Type} (rnd : Q → Q) (S : List (Loc → Q)) (locs : List Loc) (x : Loc) (vs : List Q) : Q :=
+  dot S x (deltasWith rnd (S.zip (locs.zip vs)))
+
+/-- the contrast: the EXACT deltas, each rounded on its own (what the code does NOT do) -/
+def interpolateRoundedAfter {Loc : Type} (rnd : Q → Q) (S : List (Loc → Q)) (locs : List Loc) (x : Loc) (vs : List Q) : Q :=
+  dot S x ((deltas (S.zip (locs.zip vs))).map rnd)
+
 /-! ### one axis -/
 
 /-- `supportScalar({axis: x}, {axis: (lower, peak, upper)})` with ot=True, extrapolate=False;
@@ -246,6 +263,15 @@ def deltasN (ls : List NLoc) (vs : List Q) : List Q := deltas ((scalarsN ls).zip
 /-- `interpolateFromDeltas(x, getDeltas(vs))`, masters in model order -/
 def interpolateN (ls : List NLoc) (x : NLoc) (vs : List Q) : Q := interpolate (scalarsN ls) ls x vs
 
+/-- `getDeltas(vs, round=rnd)` for master values in model order: integers -/
+def deltasNRound (rnd : Q → Int) (ls : List NLoc) (vs : List Q) : List Q :=
+  deltasWith (fun x => ((rnd x : Int) : Q)) ((scalarsN ls).zip (ls.zip vs))
+
+/-- `interpolateFromDeltas(x, getDeltas(vs, round=rnd))`, masters in model order: what an OpenType variation store built by
+    varLib (integer deltas, the supports as regions) evaluates to at `x` before the consumer rounds -/
+def interpolateNRound (rnd : Q → Int) (ls : List NLoc) (x : NLoc) (vs : List Q) : Q :=
+  interpolateWith (fun x => ((rnd x : Int) : Q)) (scalarsN ls) ls x vs
+
 /-! #### the constructor and the user's master order -/
 
 structure VModel where
@@ -275,5 +301,13 @@ def VModel.getDeltas (m : VModel) (masterValues : List Q) : List Q :=
 /-- `interpolateFromDeltas(loc, getDeltas(masterValues))` -/
 def VModel.interpolateFromMasters (m : VModel) (x : NLoc) (masterValues : List Q) : Q :=
   interpolateN m.locations x (m.reverseMapping.map (fun k => masterValues.getD k 0))
+
+/-- `getDeltas(masterValues, round=rnd)`: master values in the USER's order -/
+def VModel.getDeltasRound (m : VModel) (rnd : Q → Int) (masterValues : List Q) : List Q :=
+  deltasNRound rnd m.locations (m.reverseMapping.map (fun k => masterValues.getD k 0))
+
+/-- `interpolateFromDeltas(loc, getDeltas(masterValues, round=rnd))` -/
+def VModel.interpolateRounded (m : VModel) (rnd : Q → Int) (x : NLoc) (masterValues : List Q) : Q :=
+  interpolateNRound rnd m.locations x (m.reverseMapping.map (fun k => masterValues.getD k 0))
 
 end Ufo2ft.C10
